@@ -215,9 +215,15 @@ def build_cases(c, faults=0.0):
             cases.append({'tree': t, 'events': w, 'dm': 'null', 'late': False, 'origin': 'multi-target-family'})
     nrand = {'lua': 1200, 'promela': 400, 'null': 400} if quick else {'lua': 12000, 'promela': 4000, 'null': 4000}
     for dm, k in nrand.items():
-        for _ in range(k):
+        for j in range(k):
             t = G.rand_chart(rng, content=0.5, faults=faults, only_in=(dm == 'null'))
-            cases.append({'tree': t, 'events': G.rand_events(rng), 'dm': dm, 'late': False, 'origin': 'random-' + dm})
+            late = False
+            # every third chart with a datamodel: one variable declared below the root, initialised from a root variable
+            # (early binding: when the document is loaded; late binding: on first entry of the declaring state)
+            if dm != 'null' and j % 3 == 2 and G.nest_data(t, rng):
+                late = (j % 6 == 5)
+            cases.append({'tree': t, 'events': G.rand_events(rng), 'dm': dm, 'late': late,
+                          'origin': 'random-' + dm + ('-nested-data-late' if late else '')})
     return cases
 
 
